@@ -26,6 +26,20 @@ Proof.
     rewrite E. destruct (negb _); [|reflexivity]. f_equal. f_equal. lia.
 Qed.
 
+(* band matrix x dense matrix: every element of the result is the defining sum, and distinct (row, column) pairs are stored
+   at the addresses of the result matrix (row stride aoff0, column stride aoff1) *)
+Theorem band_mm_correct (row_major : bool) (L U dim : Z) (mem : Z -> T) (left_ptr x0 roff0 roff1 i c : Z) :
+  0 <= L -> 0 <= U -> 0 <= i < dim ->
+  adept_band_mm O row_major L U dim mem left_ptr (pack_offset (if row_major then BandR else BandC) L U dim) x0 roff0 roff1 i c
+  = band_mm_spec O row_major L U dim mem left_ptr (pack_offset (if row_major then BandR else BandC) L U dim) x0 roff0 roff1 i c.
+Proof.
+  intros HL HU Hi. unfold adept_band_mm. rewrite (band_mv_correct row_major L U dim mem left_ptr _ _ i HL HU Hi).
+  unfold band_mv_spec, band_mm_spec, band_mm_x_start, band_mm_incx.
+  apply (zsum_ext O). intros j Hj. destruct (stored _ L U i j); [|reflexivity]. f_equal. f_equal. lia.
+Qed.
+Theorem band_mm_result_address y0 aoff0 aoff1 i c : band_mm_result_addr y0 aoff0 aoff1 i c = y0 + i * aoff0 + c * aoff1.
+Proof. unfold band_mm_result_addr, band_mm_y_start, band_mm_incy. lia. Qed.
+
 (* symmetric matrix in either storage orientation times a vector: the triangle ?symv is told to read (after the wrapper's
    exchange for row-major calls) is the one the symmetric engine stores, and its mirror is the engine's mirror *)
 Theorem symm_mv_correct (row_lower_col_upper : bool) (n : Z) (mem : Z -> T) (left_ptr left_offset x0 incx i : Z) :
